@@ -35,6 +35,7 @@ ASSUMPTIONS = [
     "element values: the well-conditioned float64 alphabet (no near-axis / near-light-cone strata); agreement |u - v| <= 1e-11 max(|u|, |v|, S^k) with S the operand scale and k the homogeneity degree; NaN = NaN, +-inf equal, booleans equal; azimuthal results compared modulo 2 pi",
     "mixed NumPy x Awkward pairings use flat / regular Awkward layouts of the NumPy array's shape (shapes that NumPy and Awkward cannot broadcast against each other are not part of the lattice)",
     "records are single elements: AKR pairings are evaluated element by element on a subset of the alphabet",
+    "an int64-typed stratum (integer stored coordinates in NumPy / Awkward fields and Python ints in objects) is driven for every operation on unary / diagonal+cross signatures",
     "known Awkward-side failures are listed in known_findings.json (tau-stored object boosted by an Awkward booster)",
     "rotate_axis with an axis whose backend outranks the rotated vector's (object self with array axis, NumPy self with Awkward axis) is outside the lattice: the stated rule makes the result backend that of self, which cannot hold the broadcast of a richer axis",
 ]
@@ -384,13 +385,109 @@ def run_shard(shard, tier):
                             run_case(res, op, sa, sb, fa, fb, ba, bb, cfga, cfgb, rows_a, rows_b, s, form, refcache, scale)
         if not sampled:
             sampled = True
+            if only_sa is None or only_sa == L.CART[dimA]:
+                run_int_dtype(res, op, dimA, dimB, tier)
             res.sample({"op": op.key, "sysA": list(sa), "sysB": list(sb) if sb else None, "elements": len(rows_a), "first_row": list(rows_a[0]), "pairings": len(pairings)})
     return res
+
+
+INT_ROWS = {2: [(3, 1), (2, -2), (5, 3)], 3: [(3, 1, 2), (2, -2, 1), (5, 3, -1)], 4: [(3, 1, 2, 9), (2, -2, 1, 7), (5, 3, -1, 11)]}
+INT_ROWS_B = {2: [(1, 2), (4, -1), (2, 2)], 3: [(1, 2, -1), (4, -1, 2), (2, 2, 1)], 4: [(1, 2, -1, 6), (4, -1, 2, 9), (2, 2, 1, 8)]}
+
+
+def _int_rows(system, which):
+    """integer stored coordinates valid in any system (theta in (0, pi); tau >= 0 for the first operand)"""
+    rows = (INT_ROWS if which == "a" else INT_ROWS_B)[len(system) + 1]
+    out = []
+    for r in rows:
+        r = list(r)
+        if len(system) > 1 and system[1] == "theta":
+            r[2] = abs(r[2]) if r[2] != 0 else 1
+            r[2] = min(r[2], 3)
+        if system[0] == "rhophi":
+            r[0] = abs(r[0])
+        out.append(tuple(r))
+    return out
+
+
+def run_int_dtype(res: Result, op, dimA, dimB, tier):
+    """integer-typed coordinates (int64 NumPy / Awkward fields, Python ints in objects): same values as the object backend"""
+    if op.name in ("boost_beta3", "boostCM_of_beta3") or (op.name in ("boost", "boostCM_of") and dimB == 3):
+        return  # an integer velocity has |beta| >= 1
+    if op.momentum_only:
+        return  # the integer stratum uses generic-flavor operands
+    s = scalars_for(op)
+    sigs = S.signatures(op, dimA, dimB, "diag" if dimB is not None else "all")
+    for sa, sb in sigs:
+        ra = _int_rows(sa, "a")
+        rb = _int_rows(sb, "b") if sb is not None else None
+        for backend in ("NP", "AKA"):
+            res.states += 1
+            res.evaluations += 1
+            names_a = L.field_names(sa)
+            case = {"op": op.key, "sysA": list(sa), "sysB": list(sb) if sb else None, "ba": backend, "dtype": "int64"}
+            cls = f"{op.key}|{backend}|int64"
+
+            def mk(system, rows):
+                names = L.field_names(system)
+                if backend == "NP":
+                    return vector.array({n: np.array([r[i] for r in rows], dtype=np.int64) for i, n in enumerate(names)})
+                return vector.Array([dict(zip(names, r)) for r in rows])
+
+            try:
+                va = mk(sa, ra)
+                vb = mk(sb, rb) if sb is not None else None
+                res.transitions += 1
+                r = op.call(va, [vb] if vb is not None else [], s)
+                if op.ret == "vec":
+                    _, rsys, rfl, rrows, _ = B.result_rows(r)
+                    got = [("vec", rsys, x) for x in rrows]
+                else:
+                    vals, _ = B.scalar_values(r)
+                    got = [("num", x) for x in vals]
+            except Exception as e:  # noqa: BLE001
+                res.violation(f"raises|{cls}|{type(e).__name__}", f"{op.key} on int64-typed {backend} operands raised {type(e).__name__}: {str(e).strip()[:150]}", case)
+                continue
+            ok = len(got) == len(ra)
+            for k in range(len(ra)):
+                if not ok:
+                    break
+                oa = L.build_object(B.OBJ_CLASS[("generic", dimA)], sa, ra[k])
+                ob = L.build_object(B.OBJ_CLASS[("generic", dimB)], sb, rb[k]) if sb is not None else None
+                res.transitions += 1
+                res.traces += 1
+                try:
+                    ref = op.call(oa, [ob] if ob is not None else [], s)
+                except Exception:  # noqa: BLE001
+                    res.count("object_backend_raises_elementwise")
+                    continue
+                if op.ret == "vec":
+                    osys, ost = L.system_of(ref)
+                    if osys != got[k][1]:
+                        ok = False
+                        break
+                    for nme, p, q in zip(L.field_names(osys), got[k][2], ost):
+                        if not (angle_close(float(p), float(q)) if nme == "phi" else fclose(float(p), float(q), 200.0)):
+                            ok = False
+                else:
+                    p, q = got[k][1], ref
+                    if op.ret == "bool":
+                        ok = ok and bool(p) == bool(q)
+                    else:
+                        ok = ok and (angle_close(float(p), float(q)) if op.name in ("phi", "deltaphi") else fclose(float(p), float(q), 200.0))
+            if not ok:
+                res.violation(f"value|{cls}|{L.sysname(sa)}", f"{op.key} on int64-typed {backend} operands differs from the object backend with the same integer coordinates", case)
+            else:
+                res.nontrivial += 1
 
 
 def replay(case):
     res = Result()
     op = BY_KEY[case["op"]]
+    if case.get("dtype") == "int64":
+        sa = tuple(case["sysA"])
+        run_int_dtype(res, op, len(sa) + 1, (len(case["sysB"]) + 1) if case.get("sysB") else None, "quick")
+        return res
     sa = tuple(case["sysA"])
     sb = tuple(case["sysB"]) if case.get("sysB") else None
     dimA, dimB = len(sa) + 1, (len(sb) + 1 if sb else None)
